@@ -8,8 +8,8 @@ CONSTANTS Lits,         \* literal strings the statements may use
           Srcs,         \* cells that are read in expressions
           MaxOps,       \* history length bound
           Shapes        \* which statement/expression shapes the model uses (see Exprs, Stmts)
-VARIABLES st, act, res, nops
-vars == <<st, act, res, nops>>
+VARIABLES st, act, res, nops, hist
+vars == <<st, act, res, nops, hist>>
 
 MCLits == {<<1>>, <<2, 2>>}
 MCLits3 == {<<1>>, <<2, 2>>, <<1, 2, 1>>}
@@ -50,12 +50,13 @@ Stmts ==
 InFragment(a) == ~(a.op = "midset" /\ a.e.k = "var" /\ a.e.c = a.c)
 
 Init == /\ st = [m |-> InitM, ref |-> [c \in Cells |-> <<>>]]
-        /\ act = [op |-> "init"] /\ res = [err |-> 0, gc |-> 0] /\ nops = 0
+        /\ act = [op |-> "init"] /\ res = [err |-> 0, gc |-> 0] /\ nops = 0 /\ hist = <<>>
 Next == /\ nops < MaxOps
         /\ \E a \in Stmts :
              /\ InFragment(a)
              /\ LET r == Apply(st, a) IN st' = r.st /\ res' = [err |-> r.err, gc |-> r.gc]
              /\ act' = a
+             /\ hist' = Append(hist, [a |-> a, err |-> Apply(st, a).err, gc |-> Apply(st, a).gc])
         /\ nops' = nops + 1
 Spec == Init /\ [][Next]_vars
 
@@ -72,5 +73,9 @@ NoBadInv == st.m.bad = ""
 NeverCollectsInExpr == ~(act.op = "let" /\ res.gc > 0 /\ res.err = 0)
 NeverFailsPartWay  == ~(res.err = 14 /\ res.gc > 0)
 
-Emit == PrintT(<<"TRANSITION", ToJson([from |-> st.ref, a |-> act', err |-> res'.err, gc |-> res'.gc, to |-> st'.ref])>>)
+\* spec -> code: every transition of the bounded model once (each view-state is expanded exactly once) ...
+Emit == PrintT(<<"TRANSITION", ToJson([from |-> ToString(st.m), d |-> nops, a |-> act', err |-> res'.err, gc |-> res'.gc,
+                                       to |-> ToString(st'.m)])>>)
+\* ... and whole behaviours of the wide model in simulation mode (printed when the history bound is reached)
+PrintBehaviour == (nops = MaxOps) => PrintT(<<"BEHAVIOUR", ToJson(hist)>>)
 =============================================================================
